@@ -65,3 +65,60 @@ def _halfeven_container_parity(t, impl, expected):
     if (total % q) * 2 != q:             # not an exact tie
         return False
     return (base // q) % 2 == 1
+
+
+# ---------------------------------------------------------------- time zones (C13 / C14)
+def _zone(zs):
+    """`z:<init>;<T>,<off>;...` -> (initial, [(T, off)]); fixed offsets `o:<minutes>` -> (minutes*60, [])."""
+    if zs.startswith("o:"):
+        return int(zs[2:]) * 60, []
+    parts = zs[2:].split(";")
+    return int(parts[0]), [tuple(int(x) for x in p.split(",")) for p in parts[1:] if p]
+
+
+def _lookup(z, t):
+    off = z[0]
+    for tt, o in z[1]:
+        if tt <= t:
+            off = o
+    return off
+
+
+def _possible(z, local_ns):
+    out = []
+    for o in dict.fromkeys([z[0]] + [o for _, o in z[1]]):
+        t = local_ns - o * 10**9
+        if _lookup(z, t // 10**9) == o:
+            out.append(t)
+    return sorted(out)
+
+
+@region("zone-transitions-within-two-days")
+def _close_transitions(t, impl, expected):
+    """Zone ops on a rule set with two transitions less than two days apart: the one-day probes of
+    DisambiguatePossibleEpochNanoseconds / GetStartOfDay (the provider API offers no transition enumeration) can
+    read the offset of the neighbouring transition."""
+    if not (t[0].startswith("tz_") or t[0].startswith("zdt_")) or not t[1].startswith("z:"):
+        return False
+    ts = [x for x, _ in _zone(t[1])[1]]
+    return any(b - a < 172800 for a, b in zip(ts, ts[1:]))
+
+
+@region("until-from-later-copy-of-repeated-reading")
+def _later_copy(t, impl, expected):
+    """a.until(b, date largest unit) when the receiver is the later of two instants with the same wall-clock reading
+    and the date difference is zero: DifferenceZonedDateTime measures the time part from the *compatible* (earlier)
+    resolution of the receiver's own reading, and add() of a duration without date part is exact instant addition,
+    so add(until) overshoots by the length of the overlap. Specified behaviour (ECMAScript Temporal)."""
+    if t[0] not in ("zdt_law",) or not t[1].startswith("z:"):
+        return False
+    z = _zone(t[1])
+    a = int(t[2])
+    p = _possible(z, a + _lookup(z, a // 10**9) * 10**9)
+    return len(p) >= 2 and p[0] != a
+
+
+@region("day-length-not-whole-hours")
+def _fractional_day(t, impl, expected):
+    """hours_in_day returns a u8: a local day whose length is not a whole number of hours is truncated."""
+    return t[0] == "zdt_hid" and "+" in expected
